@@ -1,5 +1,5 @@
 ENGINES = [
-    {"name": "symx", "path": "verif/symx.py", "serves_properties": ["C12"],
+    {"name": "symx", "path": "verif/symx.py", "serves_properties": ["C11", "C12", "C18"],
      "kind_free_text": "concolic execution of the real chmpy Python on z3 Real/Int terms (numpy names rebound to shims), DFS path forking, z3 5.1 decides each assertion"},
 ]
 NOTES = ("Solver-based checking of the real code. Every check regenerates its encoding from /repo's working tree at run time. "
@@ -11,4 +11,12 @@ CHECKS = {
                 text="Bounded-symbolic verdict without a size bound: the real set_lengths_and_angles/set_vectors/named constructors run on symbolic lengths and (cos,sin) angle pairs; direct*inverse=I, Gram matrix, volume=det, starred lengths/angles, both construction routes and the round trip of symbolic coordinates are each decided by z3 (NRA) for all positive-volume cells.",
                 note="Reals stand in for doubles; np.linalg.inv = adjugate/det; angles only via (cos,sin); cell_type naming stubbed out."),
 }
+CHECKS["C18"] = dict(engine="symx",
+    technique="symbolic execution of kabsch_rotation_matrix with SVD as a contract stub; optimality as a chain of z3 polynomial-identity and NRA queries",
+    text="The real kabsch_rotation_matrix/reorient_points/rmsd_points/Dimer.calculate_transform run on symbolic point sets with LAPACK's SVD replaced by an arbitrary (v,s,w) satisfying its contract. On both branches of the determinant test z3 shows R = v.diag(1,1,d).w, orthogonal, det +1, tr(R^T A^T B) = s1+s2+d s3, and (unit-quaternion form) that no proper rotation exceeds that value; |AR-B|^2 is tied to the trace for any N by a polynomial identity. No bound on coordinates or point count.",
+    note="Reals for doubles; SVD contract validated concretely; the step 'every orthogonal matrix is +-Rot(q)' and the chaining of the lemmas are textbook steps not machine-checked.")
+CHECKS["C11"] = dict(engine="symx + z3 FP",
+    technique="symbolic execution of the packed-code codec (LIA over the whole code space), FP64 bit-precise queries for translation wrap/rounding, LRA for apply forms; string grammar by solver-pruned path enumeration",
+    text="encode/decode of the packed integer is executed on a symbolic code and decided for all 34,012,224 codes by single LIA queries; equality/hash/print modulo the lattice is decided under IEEE binary64 semantics for every double within 1e-12 of k/12+n (bounded n); apply on (N,3)/(N,4)/Cartesian forms is decided for arbitrary real operations and cells; string spellings are enumerated from a grammar (finite choice space).",
+    note="FP part: one perturbed axis at a time, |n| bounded (see evidence); Fraction.limit_denominator is a validated contract stub; string part is enumeration, not symbolic.")
 NOT_APPLICABLE = [{"property_id": p, "reason": "check not yet implemented in this round (planned, see DESIGN.md section 3)"} for p in ALL if p not in CHECKS]
